@@ -1580,6 +1580,9 @@ func (idx *MergeSetIndex) Close() error {
 	}
 
 	idx.tb.MustClose()
+	if err := fileops.Remove(idx.deletedLogPath(), fileops.FileLockOption(*idx.lock)); err != nil && !os.IsNotExist(err) {
+		return err
+	}
 
 	for i := 0; i < len(idx.queues); i++ {
 		close(idx.queues[i])
@@ -1640,12 +1643,73 @@ func (idx *MergeSetIndex) LoadDeletedTSIDs() error {
 	}
 	isDelete := idx.getIndexSearch()
 	defer idx.putIndexSearch(isDelete)
-	if tsid, err := isDelete.getAllTSID(); err != nil {
+	tsid, err := isDelete.getAllTSID()
+	if err != nil {
 		return err
-	} else {
-		idx.deletedTSIDs.Store(tsid)
+	}
+	// tsids that were acknowledged as deleted but had not reached a part of the table when the process stopped
+	pending, err := idx.readDeletedLog()
+	if err != nil {
+		return err
+	}
+	if len(pending) > 0 {
+		tsid.AddMulti(pending)
+	}
+	idx.deletedTSIDs.Store(tsid)
+	if len(pending) > 0 {
+		items := make([][]byte, 0, len(pending))
+		for i := range pending {
+			items = append(items, encoding.MarshalUint64(nil, pending[i]))
+		}
+		// the log is removed by Close, once the table has written everything to its parts
+		return idx.tb.AddItems(items)
 	}
 	return nil
+}
+
+// deletedLogName is a small append-only file next to the table of the deleted-series index: WriteDeleteTsids syncs the
+// tsids to it before DROP SERIES is acknowledged, because AddItems only buffers them (they reach a part with the next
+// periodic flush). It is read again when the index is loaded and removed by Close, after the table has
+// written all its items to parts.
+const deletedLogName = "deleted_tsids.log"
+
+func (idx *MergeSetIndex) deletedLogPath() string {
+	return fileops.Join(idx.path, deletedLogName)
+}
+
+func (idx *MergeSetIndex) appendDeletedLog(tsids []uint64) error {
+	lock := fileops.FileLockOption(*idx.lock)
+	pri := fileops.FilePriorityOption(fileops.IO_PRIORITY_NORMAL)
+	fd, err := fileops.OpenFile(idx.deletedLogPath(), os.O_CREATE|os.O_WRONLY|os.O_APPEND, 0640, lock, pri)
+	if err != nil {
+		return err
+	}
+	buf := make([]byte, 0, len(tsids)*8)
+	for i := range tsids {
+		buf = encoding.MarshalUint64(buf, tsids[i])
+	}
+	if _, err = fd.Write(buf); err == nil {
+		err = fd.Sync()
+	}
+	if e := fd.Close(); err == nil {
+		err = e
+	}
+	return err
+}
+
+func (idx *MergeSetIndex) readDeletedLog() ([]uint64, error) {
+	buf, err := fileops.ReadFile(idx.deletedLogPath())
+	if err != nil {
+		if os.IsNotExist(err) {
+			return nil, nil
+		}
+		return nil, err
+	}
+	tsids := make([]uint64, 0, len(buf)/8)
+	for ; len(buf) >= 8; buf = buf[8:] { // a torn tail is an id that was never acknowledged
+		tsids = append(tsids, encoding.UnmarshalUint64(buf))
+	}
+	return tsids, nil
 }
 
 func (idx *MergeSetIndex) DeleteTSIDs(name []byte, condition influxql.Expr, tr TimeRange) error {
@@ -1678,6 +1742,9 @@ func (idx *MergeSetIndex) WriteDeleteTsids(tsids []uint64) error {
 	// add deleted tsids to memory
 	idx.deletedTSIDsLock.Lock()
 	defer idx.deletedTSIDsLock.Unlock()
+	if err := idx.appendDeletedLog(tsids); err != nil {
+		return err
+	}
 	if curDeleted, ok := idx.deletedTSIDs.Load().(*uint64set.Set); ok {
 		newDeleted := curDeleted.Clone()
 		newDeleted.AddMulti(tsids)
